@@ -438,6 +438,21 @@ def common_prefix_rule(cx, rule):
     assigns = [(st, v) for st, v in assignments(f, cp) if v is not None]
     cx.need(assigns, rule, f, f"assignments of `{cp}`")
     loops = [l for l in f.body if isinstance(l, ast.For) and chunk in names_in(l.iter)]
+    # ---- the prefix may be represented by its length: `cp = <candidate>[:L]` after a loop that updates L
+    in_loop = [(st, v) for st, v in assigns if any(a is l for l in loops for a in ancestors(st))]
+    len_var = None
+    if not in_loop and len(assigns) == 1:
+        v0 = assigns[0][1]
+        while isinstance(v0, ast.Call) and call_name(v0) in ("list", "tuple") and len(v0.args) == 1:
+            v0 = v0.args[0]
+        if isinstance(v0, ast.Subscript) and isinstance(v0.slice, ast.Slice) and v0.slice.lower is None and isinstance(v0.slice.upper, ast.Name):
+            lv = v0.slice.upper.id
+            lv_assigns = [(st, v) for st, v in assignments(f, lv)]
+            if any(any(a is l for l in loops for a in ancestors(st)) for st, v in lv_assigns):
+                len_var = lv
+    if len_var is not None:
+        cp_name, cp = cp, len_var
+        assigns = [(st, v) for st, v in assignments(f, cp) if v is not None]
     # ---- definite flaw: overwritten in the loop without loop-carried dependence
     for l in loops:
         body_assigns = {}
@@ -467,6 +482,18 @@ def common_prefix_rule(cx, rule):
                       f"(only on {sorted(d - {'len', 'list', 'tuple', 'zip', 'enumerate', 'min'})}): the factored prefix is that of the last alternatives compared, "
                       "not one common to the whole group - alternatives that do not start with it are rewritten to start with it")
                 return
+    if len_var is not None:
+        # length form: accepted updates are  L = min(L, i)  (either operand order); anything else is undecided
+        upd = [(st, v) for st, v in assigns if any(a is l for l in loops for a in ancestors(st))]
+        okl = bool(upd) and all(isinstance(v, ast.Call) and call_name(v) == "min" and len(v.args) == 2 and any(is_name(a_, cp) for a_ in v.args) for _, v in upd)
+        if not okl:
+            raise AnalysisError(rule, f"{REL}::_factorize_common_prefix_prods", f"the prefix length `{cp}` is updated in a way that is not `min({cp}, position of the first difference)`: not decided")
+        init_l = [v for st, v in assigns if not any(a is l for l in loops for a in ancestors(st))]
+        oki = len(init_l) == 1 and norm(init_l[0]).startswith("min(") and "len(" in norm(init_l[0]) and chunk in names_in(init_l[0])
+        if not oki:
+            raise AnalysisError(rule, f"{REL}::_factorize_common_prefix_prods", f"initial prefix length `{cp}` not recognised: not decided")
+        cx.ob(rule, upd[0][0], True, "the prefix length only shrinks: min(current length, position of the first difference) for every alternative")
+        return
     # ---- recognised shape
     init = [(st, v) for st, v in assigns if not any(isinstance(a, (ast.For, ast.While)) for a in ancestors(st))]
     inl = [(st, v) for st, v in assigns if any(isinstance(a, (ast.For, ast.While)) for a in ancestors(st))]
